@@ -98,21 +98,64 @@ def source_next_points(M, bi):
     return pts
 
 
-def none_edges_of_source(M, bi):
-    """Edges on which the source was observed to have ended: the None arm of `iter.next().await`
-    and the `State::Item(None)` arm of the race result."""
-    edges = []
+def source_option_terms(M, bi):
+    """Terms denoting an `Option<Item>` freshly obtained from the source in this body: the value of
+    `iter.next().await` and the `State::Item(..)` payload of the race result."""
+    out = []
     for a in awaits_of(bi, "next"):
-        edges += [(e, "iter.next().await == None") for e in bi.outcome_edges(a.site, "Ready", "None")]
-    # race result: variant Item carrying an Option
+        out.append((a.value, a.where + " iter.next().await"))
     for a in awaits_of(bi, "race"):
-        for path, e in bi.outcome_tests(a.site):
-            # path ('variant','Ready'),('field',0),('variant','Item'),('field',0) tested for None
-            if path and path[-2:] == (("variant", "Item"), ("field", 0)) and e["kind"] == "discr":
-                ed = bi.edge(e, "None")
-                if ed:
-                    edges.append((ed, "race result State::Item(None)"))
+        out.append((("field", ("variant", a.value, "Item"), 0), a.where + " race result State::Item(..)"))
+    return out
+
+
+def source_option_switches(M, bi):
+    """[(switch entry, [covered source terms])]: discriminant switches on a source option, directly
+    or through a local every definition of which is a source option (`let next_item = match .. {..}`)."""
+    srcs = [t for t, _ in source_option_terms(M, bi)]
+    out = []
+    body = bi.body
+    for e in bi.switches:
+        if e["kind"] != "discr":
+            continue
+        s = e["subject"]
+        if s in srcs:
+            out.append((e, [s]))
+        elif s[0] == "phi":
+            ds = []
+            for d in body.defs.get(s[1], []):
+                if d[0] in body.reachable and not body.is_cleanup(d[0]):
+                    ds.append(bi.T._of_def(s[1], d, 1))
+            if ds and all(d in srcs for d in ds):
+                out.append((e, ds))
+    return out
+
+
+def item_edges_of_source(M, bi):
+    """[(Some edges, payload term, description)]"""
+    out = []
+    for e, cov in source_option_switches(M, bi):
+        ed = bi.edge(e, "Some")
+        if ed:
+            out.append(([ed], ("field", ("variant", e["subject"], "Some"), 0), bi.describe(e["block"])))
+    return out
+
+
+def none_edges_of_source(M, bi):
+    """Edges on which the source was observed to have ended."""
+    edges = []
+    for e, cov in source_option_switches(M, bi):
+        ed = bi.edge(e, "None")
+        if ed:
+            edges.append((ed, "source returned None (%s)" % bi.describe(e["block"])))
     return edges
+
+
+def uncovered_source_options(M, bi):
+    cov = []
+    for e, c in source_option_switches(M, bi):
+        cov += c
+    return [w for t, w in source_option_terms(M, bi) if t not in cov]
 
 
 def flush_points(bi):
@@ -128,7 +171,9 @@ def check_drive_src(ctx, M, drive_body, rule):
     nxt = source_next_points(M, bi)
     ne = none_edges_of_source(M, bi)
     fl = flush_points(bi)
-    ctx.require(len(nxt) >= 2 and len(ne) >= 2 and len(fl) >= 1, "drive: source-next points (%d), None edges (%d), flush (%d)" % (len(nxt), len(ne), len(fl)))
+    ctx.require(len(nxt) >= 2 and len(ne) >= 1 and len(fl) >= 1, "drive: source-next points (%d), None edges (%d), flush (%d)" % (len(nxt), len(ne), len(fl)))
+    unc = uncovered_source_options(M, bi)
+    ctx.check(not unc, rule, drive_body.def_, "every Option taken from the source is matched on Some / None", site=drive_body.span, path=unc)
     nxt_blocks = {b for b, _, _ in nxt}
     for ed, what in ne:
         r = bi.reach_from_edges([ed])
@@ -191,3 +236,27 @@ def drain_loops_exit_only_on_none(ctx, bi, rule, where, what, field="group"):
 def fn_calls(bi):
     """closure invocations `(self.f)(x)`: Fn/FnMut/FnOnce::call* sites"""
     return [s for s in bi.sites if s.callee.trait in ("Fn", "FnMut", "FnOnce") and s.callee.name in ("call", "call_mut", "call_once")]
+
+
+def effective_body(M, bi):
+    """If an async body does nothing but `self.<local async helper>().await` (a drain loop moved into
+    a private `async fn`), analyse the helper's coroutine instead: it has the same `self` upvar."""
+    aw = awaits(bi)
+    if len(aw) != 1 or group_next_awaits(bi):
+        return bi
+    a = aw[0]
+    t = a.fut
+    if t is None or t[0] != "call" or not t[2] or t[2][0] != cupvar(0):
+        return bi
+    site = bi.by_block.get(t[3])
+    if site is None or not site.callee.local:
+        return bi
+    fn_body = M.by_cdef.get(site.callee.cpath)
+    co = M.coroutine_of(fn_body) if fn_body is not None else None
+    if co is None:
+        return bi
+    # the caller must do nothing else of substance: every return follows the awaited helper
+    ready = bi.outcome_edges(a.site, "Ready")
+    if not ready or not all(bi.guarded_by(r, ready) for r in bi.return_blocks):
+        return bi
+    return M.info(co)
